@@ -10,9 +10,9 @@ def run(ck):
     for i in range(16):
         jobs.append(dict(exe=asan, args=["--mode", "run", "--cases", n, "--seed", sa.subseed(ck, i)], label="run%d" % i, timeout=7200))
     if thorough:
-        # every mutation of every archive (--all) costs about 15x a sampled case: many short jobs so that all cores stay busy
+        # every mutation of every archive (--all) costs several hundred times a sampled case (about 20 s each): many short jobs so that all cores stay busy
         for i in range(32):
-            jobs.append(dict(exe=asan, args=["--mode", "run", "--cases", max(1, n // 20), "--seed", sa.subseed(ck, 100 + i), "--all"], label="all%d" % i, timeout=7200))
+            jobs.append(dict(exe=asan, args=["--mode", "run", "--cases", max(1, n // 250), "--seed", sa.subseed(ck, 100 + i), "--all"], label="all%d" % i, timeout=7200))
     if thorough:
         plain = ck.build("plain", ["ser_mon"])["ser_mon"]
         for i in range(4):
